@@ -18,7 +18,7 @@ LEVEL_TEXT = ("Static structural proof of necessary conditions: (R9.1) every fun
               "registered as DEFINITION_INVALID and reachable from the dictionary, HED_DEF_EXPAND_INVALID as "
               "DEF_EXPAND_INVALID from string validation. The content of an expansion, the shrink/expand round trip "
               "beyond R9.1 and interleavings with copy/validate are NOT decided.")
-LEVEL_EXTRA = 'Added after the seeded evaluation: (R9.5) HedTag.__deepcopy__ copies the cached expansion, its flag and the parent link; (R9.6) validators obtain expansions with a copy of the tag; (R9.7) every access to a definition table case-folds with casefold (one frozen exception: keys copied from another table); (R9.8) the nested-Def search in definition contents is recursive. (R9.9) the Def-expand content test compares sorted forms of both groups. (R9.10) the column-wise expand/shrink variants store through a single indexer (no chained assignment). (R9.11) written-form tag equality is only a fallback for tags the schema did not identify.'
+LEVEL_EXTRA = 'Added after the seeded evaluation: (R9.5) HedTag.__deepcopy__ copies the cached expansion, its flag and the parent link; (R9.6) validators obtain expansions with a copy of the tag; (R9.7) every access to a definition table case-folds with casefold (one frozen exception: keys copied from another table); (R9.8) the nested-Def search in definition contents is recursive. (R9.9) the Def-expand content test compares sorted forms of both groups. (R9.10) the column-wise expand/shrink variants store through a single indexer (no chained assignment). (R9.11) written-form tag equality is only a fallback for tags the schema did not identify. (R9.12) no issue list is discarded in the definition modules; (R9.13) package-internal modules are imported by their package path; (R9.14) HedGroup locates children by identity.'
 
 ROWS = [{"key": "DefinitionErrors." + k, "code": "DEFINITION_INVALID"} for k in (
     "WRONG_NUMBER_GROUPS", "WRONG_NUMBER_TAGS", "NO_DEFINITION_CONTENTS", "INVALID_DEFINITION_EXTENSION",
@@ -376,3 +376,59 @@ def run(ctx):
                   "`Age/#` is accepted as equal to the expansion with `Age/5`",
                   desc="written-form equality only for tags the schema did not identify")
     ctx.floor("R9.11", "written-form comparisons in HedTag.__eq__", len(ctx.obligations) - n_before, 1)
+
+    # ---------------- R9.12: what the acceptance rules report reaches the dictionary's issue list
+    ctx.rule("R9.12", "no issue list returned inside the definition modules is discarded")
+    from sa.issues import check_no_dropped_issues
+    sc12 = [f for f in prog.functions.values() if f.module.name in ("hed.models.definition_dict", "hed.models.def_expand_gather",
+                                                                    "hed.models.definition_entry")]
+    ns12 = check_no_dropped_issues(ctx, "R9.12", sc12)
+    ctx.floor("R9.12", "issue-producing calls in the definition modules", ns12, 4)
+
+    # ---------------- R9.13: the table-level variants are importable
+    ctx.rule("R9.13", "imports inside the package name the module by its package path (a bare `from df_util import ...` cannot be resolved)")
+    import sys as _sys
+    std = set(getattr(_sys, "stdlib_module_names", ()))
+    own = {}
+    for m_ in prog.modules.values():
+        own.setdefault(m_.name.rsplit(".", 1)[-1], []).append(m_.name)
+    n_imp = 0
+    for m_ in prog.modules.values():
+        if not m_.name.startswith(("hed.models", "hed.validator")):
+            continue
+        for x in ast.walk(m_.tree):
+            names = []
+            if isinstance(x, ast.ImportFrom) and x.level == 0 and x.module:
+                names = [x.module]
+            elif isinstance(x, ast.Import):
+                names = [a.name for a in x.names]
+            for nm in names:
+                n_imp += 1
+                top = nm.split(".")[0]
+                if "." not in nm and top in own and top not in std and top != "hed" and not any(o == top for o in own[top]):
+                    ctx.violation("R9.13", m_.name, x, "%s:%d" % (m_.relpath, x.lineno),
+                                  "`%s` imports `%s` as a top-level module, but it only exists as %s: the statement raises "
+                                  "ModuleNotFoundError when it runs (BaseInput.expand_defs / shrink_defs cannot be called at all)"
+                                  % (norm(x)[:50], nm, ", ".join(own[top])))
+    ctx.ok("R9.13", "%d import statements in hed.models / hed.validator name resolvable modules" % n_imp, "")
+    ctx.floor("R9.13", "imports in hed.models / hed.validator", n_imp, 80)
+
+    # ---------------- R9.14: tree surgery finds its children by identity
+    ctx.rule("R9.14", "removal / replacement inside a group locates the child by identity, not with list.remove / list.index (which use equality)")
+    hgm = prog.find_module("models.hed_group")
+    n_surg = 0
+    for f in hgm.classes["HedGroup"].all_methods:
+        for c in walk_no_nested(f.node):
+            if isinstance(c, ast.Call) and isinstance(c.func, ast.Attribute) and c.func.attr in ("remove", "index") and \
+                    isinstance(c.func.value, ast.Attribute) and c.func.value.attr in ("children", "_children", "_original_children"):
+                n_surg += 1
+                ctx.saw(f)
+                ctx.violation("R9.14", f.qualname, c, loc(f, c),
+                              "`%s` finds the child by equality: in `Def/A, Blue, Def/A` removing the third child takes out the first "
+                              "one and leaves the requested child in the tree without a parent, so a later expand/shrink works on a "
+                              "detached tag" % norm(c)[:50])
+        for x in walk_no_nested(f.node):
+            if isinstance(x, ast.Compare) and any(isinstance(o, (ast.Is, ast.IsNot)) for o in x.ops):
+                n_surg += 1
+    ctx.ok("R9.14", "children are located by identity in HedGroup (%d identity tests / child lookups)" % n_surg, "")
+    ctx.floor("R9.14", "identity tests and child lookups in HedGroup", n_surg, 3)
